@@ -281,3 +281,57 @@ Section MapStep.
       destruct va; try contradiction; reflexivity.
   Qed.
 End MapStep.
+
+Section MapStep2.
+  Variable sc : schema.
+  Hypothesis WF : wf_schema sc = true.
+  Hypothesis BS : builtins_std sc = true.
+  Variable n' : nat.
+  Variable pn : nat -> list byte -> result obj.
+  Variable nested_ok : nat -> list byte -> bool.
+  Variable B : nat.
+  Hypothesis PN : forall c' b m, (length b < B)%nat -> nested_sem n' sc c' b = Some m -> nested_ok c' b = true ->
+                                 exists mo, pn c' b = Ok mo /\ abs_obj sc mo = m /\ good sc c' mo.
+  Variable c : nat.
+
+  Theorem map_step : map_step_stmt sc pn (nested_sem n' sc) nested_ok B c.
+  Proof.
+    intros o st urs i f a num b I Hf C R LB Clean V Nok.
+    pose proof (wf_field_get sc c i f WF Hf) as W.
+    destruct (entry_fields sc _ f W C) as (fk & fv & kt & vt & pk & pv' & Hfs & Hm & Fk & Fv & Gk & Gv & Wv & Hk & Hv & MK & NotMap & FitK & FitV).
+    destruct (wf_mapof sc _ f W C) as (_ & _ & _ & _ & _ & _ & IsMap & _ & _). apply ptype_eqb_eq in IsMap.
+    destruct (map_key_kind kt MK) as (N1 & N2 & Kinds).
+    destruct (nested_sem n' sc (fentry f) b) as [ea|] eqn:Ne; [|discriminate V].
+    pose proof (rec_ok_len_lt _ _ _ R) as Lb.
+    destruct (PN (fentry f) b ea ltac:(lia) Ne Nok) as (e & Hpn & Ha & G).
+    (* the value the record contributes: the parsed entry *)
+    unfold field_value, parsed_of. cbn [snd pwt pbytes]. rewrite IsMap.
+    unfold WIRE_LEN_DELIM, WIRE_VARINT, WIRE_FIXED_32, WIRE_FIXED_64.
+    replace (tmem TMap PACKED_TYPES) with false by (vm_compute; reflexivity).
+    cbn [Z.eqb Pos.eqb andb orb ptype_eqb ptype_tag]. rewrite Hpn. cbn [bind].
+    (* the entry's denotation *)
+    pose proof Ne as Ne'. unfold nested_sem in Ne'.
+    destruct (parse_wire b) as [rs'|]; [|discriminate Ne']. cbn [obind] in Ne'.
+    destruct (sem_entry _ _ _ _ _ _ _ Hfs Ne') as (n'' & ka & va & u & ps0 & ps1 & En & -> & I0 & I1).
+    assert (Ck : card_of fk = Implicit).
+    { unfold card_of. rewrite Hk, Gk, Fk. destruct kt; try reflexivity; congruence. }
+    pose proof (interp_implicit_kind _ _ _ _ _ Ck ltac:(now rewrite Fk) ltac:(now rewrite Fk) I0) as Kk.
+    rewrite Fk in Kk.
+    assert (Pk : plain_aval ka) by (apply plain_kind; rewrite Kk; destruct Kinds as [->|[->| ->]]; discriminate).
+    destruct (implicit_read sc (fentry f) e [ka; va] u 0 ka WF G Ha eq_refl Pk) as (k & Hgk & Ak & Sk).
+    subst n'.
+    destruct (entry_value sc WF BS n'' (fentry f) e fk fv pv' ka va u ps1 G Hfs Gv Wv Hv
+                ltac:(now rewrite Fv) ltac:(now rewrite Fv) Ha I1) as (v & Hgv & Av).
+    apply (Inv_store_map sc WF (nested_sem (S n'') sc) c o st urs i f (Len b) e k v I Hf C Hgk Hgv).
+    intros ps d Hps Hint.
+    rewrite (interp_map_snoc (nested_sem (S n'') sc) sc f ps (Len b) _ (AMsg [ka; va] u) C Hint Ne).
+    f_equal. f_equal. cbn [entry_step]. unfold map_dflt. rewrite Hfs.
+    rewrite (dict_set_map_put sc f d k v).
+    - unfold value_field. rewrite Hfs. cbn [nth]. now rewrite Ak, Av.
+    - intros kv Hin.
+      pose proof (interp_map_keys (S n'') sc f ps _ _ W C Hint kt vt Hm) as Hkeys.
+      rewrite Forall_forall in Hkeys. specialize (Hkeys (abs_kv sc f kv) (in_map _ _ _ Hin)). cbn [abs_kv fst] in Hkeys.
+      apply key_eq_agree; [| exact Sk | congruence | rewrite Ak, Kk; exact Kinds].
+      apply abs_scalar_plain. apply plain_kind. rewrite Hkeys. destruct Kinds as [->|[->| ->]]; discriminate.
+  Qed.
+End MapStep2.
